@@ -154,6 +154,40 @@ Fixpoint push_ops (duid : str) (col : N) (c : cp) (ops : list op) (acc : list od
 Definition error_resp (req : ppp) (code : N) : ppp :=
   mkPpp (p_key req) (p_duid req) bit_error (p_cp req) (p_type req) [] (Some code).
 
+(* pushOperations, pullOperations, commitToMongoDB and finalize, once the datatype document d0,
+   the DUID under which operations are stored/pulled, the operations to push and the option of the
+   response are settled *)
+Definition finish_pack (db : sdb) (colname : str) (col : N) (cuid : str) (req : ppp) (ro : bool)
+           (d0 : ddoc) (duid : str) (ops : list op) (opt : N) (err_duid : str) : sdb * ppp * list publish :=
+  let cp0 := match alookup str_eqb cuid (clients_of d0 ro) with Some c => c | None => mkCp 0 0 end in
+  (* an error after createDatatype / subscribeDatatype keeps the option bit and DUID they set *)
+  let err_after code := mkPpp (p_key req) err_duid (N.lor opt bit_error) (p_cp req) (p_type req) [] (Some code) in
+  (* pushOperations *)
+  let pushed := if ro then Some (mkCp (dd_end d0) (cseq cp0), []) else push_ops duid col (mkCp (dd_end d0) (cseq cp0)) ops [] in
+  match pushed with
+  | None => (db, err_after err_missing_ops, [])
+  | Some (cp1, newdocs) =>
+      (* pullOperations *)
+      let pulled := if has (p_opt req) bit_snapshot then [] else get_ops db duid (sseq (p_cp req) + 1) in
+      let cp2 := match rev pulled with
+                 | [] => cp1
+                 | last :: _ => mkCp (od_sseq last + N.of_nat (length newdocs)) (cseq cp1)
+                 end in
+      (* commitToMongoDB: InsertMany(operations) then UpdateOne(datatype) *)
+      let '(stored, ok) := insert_ops (s_ops db) newdocs in
+      if ok then
+        let d1 := set_end (set_client d0 ro cuid cp2) (sseq cp2) in
+        let db' := mkSdb (s_cols db) (s_colctr db) (s_clients db) (upsert_dt (s_dts db) d1) stored in
+        let resp := mkPpp (p_key req) duid opt cp2 (p_type req) (map od_op pulled) None in
+        let pubs := match newdocs with
+                    | [] => []
+                    | _ => [mkPub colname (dd_key d1) cuid (dd_duid d1) (sseq cp2)]
+                    end in
+        (db', resp, pubs)
+      else
+        (mkSdb (s_cols db) (s_colctr db) (s_clients db) (s_dts db) stored, err_after err_abort_server, [])
+  end.
+
 (* one pack of one client; result: new store, response, publishes *)
 Definition handle_pack (db : sdb) (colname : str) (col : N) (cuid : str) (req : ppp) : sdb * ppp * list publish :=
   let ro := has (p_opt req) bit_readonly in
@@ -161,47 +195,14 @@ Definition handle_pack (db : sdb) (colname : str) (col : N) (cuid : str) (req : 
   then (db, error_resp req err_abort_client, [])
   else
     let '(c, d) := evaluate db col cuid ro req in
-    match decide col req c d with
-    | ARefuse code => (db, error_resp req code, [])
-    | act =>
-        let d0 := match act, d with
-                  | ACreate, _ => mkDdoc (p_duid req) (p_key req) col (p_type req) 0 [] []
-                  | _, Some d => d
-                  | _, None => mkDdoc (p_duid req) (p_key req) col (p_type req) 0 [] []   (* unreachable *)
-                  end in
-        let duid := match act with ASubscribe => dd_duid d0 | _ => p_duid req end in
-        let ops := match act with ASubscribe => [] | _ => p_ops req end in
-        let opt := match act with ACreate => bit_create | ASubscribe => bit_subscribe | _ => 0 end in
-        let cp0 := match alookup str_eqb cuid (clients_of d0 ro) with Some c => c | None => mkCp 0 0 end in
-        (* pushOperations *)
-        let pushed := if ro then Some (mkCp (dd_end d0) (cseq cp0), []) else push_ops duid col (mkCp (dd_end d0) (cseq cp0)) ops [] in
-        (* an error after createDatatype / subscribeDatatype keeps the option bit and DUID they set *)
-        let err_after code := mkPpp (p_key req) (match act with ASubscribe => duid | _ => p_duid req end)
-                                    (N.lor opt bit_error) (p_cp req) (p_type req) [] (Some code) in
-        match pushed with
-        | None => (db, err_after err_missing_ops, [])
-        | Some (cp1, newdocs) =>
-            (* pullOperations *)
-            let pulled := if has (p_opt req) bit_snapshot then [] else get_ops db duid (sseq (p_cp req) + 1) in
-            let cp2 := match rev pulled with
-                       | [] => cp1
-                       | last :: _ => mkCp (od_sseq last + N.of_nat (length newdocs)) (cseq cp1)
-                       end in
-            (* commitToMongoDB: InsertMany(operations) then UpdateOne(datatype) *)
-            let '(stored, ok) := insert_ops (s_ops db) newdocs in
-            if ok then
-              let d1 := set_end (set_client d0 ro cuid cp2) (sseq cp2) in
-              let db' := mkSdb (s_cols db) (s_colctr db) (s_clients db) (upsert_dt (s_dts db) d1) stored in
-              let resp := mkPpp (p_key req) duid opt cp2 (p_type req) (map od_op pulled) None in
-              let pubs := match newdocs with
-                          | [] => []
-                          | _ => [mkPub colname (dd_key d1) cuid (dd_duid d1) (sseq cp2)]
-                          end in
-              (db', resp, pubs)
-            else
-              (mkSdb (s_cols db) (s_colctr db) (s_clients db) (s_dts db) stored,
-               err_after err_abort_server, [])
-        end
+    match decide col req c d, d with
+    | ARefuse code, _ => (db, error_resp req code, [])
+    | ACreate, _ =>
+        finish_pack db colname col cuid req ro (mkDdoc (p_duid req) (p_key req) col (p_type req) 0 [] [])
+                    (p_duid req) (p_ops req) bit_create (p_duid req)
+    | ASubscribe, Some d0 => finish_pack db colname col cuid req ro d0 (dd_duid d0) [] bit_subscribe (dd_duid d0)
+    | ANormal, Some d0 => finish_pack db colname col cuid req ro d0 (p_duid req) (p_ops req) 0 (p_duid req)
+    | _, None => (db, error_resp req err_no_datatype, [])          (* unreachable: see ServerFacts.decide_spec *)
     end.
 
 (* ---------- ProcessPushPull / ProcessClient / CreateCollection ---------- *)
